@@ -28,6 +28,7 @@ TyOf(s) == CASE s = "nat" -> NatT [] s = "int" -> IntT [] s = "real" -> RealT []
 \* the normalisers the property calls canonical (naturals, reals, conjunctions, disjunctions), by the mode of the orbit
 CanonCvs(mode, ty) == CASE mode = "arith" /\ ty = "nat" -> {"nat_norm_full"}
                         [] mode = "arith" /\ ty = "real" -> {"real_norm", "real_auto"}
+                        [] mode = "arith" /\ ty = "int" -> {"int_norm"}        \* only on LINEAR power-free inputs, see Claimed
                         [] mode = "conj" -> {"prop_norm_full", "sort_conj", "conj_norm"}
                         [] mode = "disj" -> {"prop_norm_full", "sort_disj", "disj_norm"}
                         [] OTHER -> {}
@@ -35,6 +36,16 @@ CanonCvs(mode, ty) == CASE mode = "arith" /\ ty = "nat" -> {"nat_norm_full"}
 \* + and *, and the binary-arithmetic theorems to add and multiply numerals); in a partial theory (a theory object that is still
 \* being extended) only the contract, the checker replay and value preservation are demanded
 TheoryFull(e) == e.thy.add_assoc /\ e.thy.mult_comm /\ e.thy.binary
+\* The property names naturals and reals.  For integers the normaliser is the one of linear arithmetic (omega / simplex front end):
+\* canonicity and idempotence are demanded of it on inputs without powers whose polynomial is linear (every monomial of degree <= 1);
+\* beyond that a disagreement is a divergence.
+RECURSIVE NoPow(_)
+NoPow(x) == CASE x[1] = "^" -> FALSE [] Bin2(x) -> NoPow(x[2]) /\ NoPow(x[3]) [] x[1] \in {"neg", "S"} -> NoPow(x[2]) [] OTHER -> TRUE
+RECURSIVE SumExp(_)
+SumExp(m) == IF m = {} THEN 0 ELSE LET pr == CHOOSE q \in m : TRUE IN pr[2] + SumExp(m \ {pr})
+Linear(p) == \A pr \in p : SumExp(pr[1]) <= 1
+Claimed(mode, ty, t) == (mode = "arith" /\ ty = "int") =>
+                           LET a == FromHolA(t, IntT) IN PolyExaminable(a) /\ NoPow(a) /\ VarAtoms(a) /\ Linear(PolyOf(a))
 Abstract(mode, ty, t) == IF mode = "arith" THEN FromHolA(t, TyOf(ty)) ELSE FromHolP(t)
 Class(mode, ty, t) == CASE mode = "arith" -> PolyOf(FromHolA(t, TyOf(ty)))
                         [] mode = "conj" -> MemberSet(FromHolP(t), "and")
@@ -63,12 +74,12 @@ ConvClauses(e) ==
           \cup (IF e.chk.o = "ok" /\ SameSeq(e.chk.th, e.pt.th) THEN {} ELSE {"Checked"})
           \cup (IF e.ev.o = "none" \/ (e.ev.o = "ok" /\ SameSeq(e.ev.th, e.pt.th)) THEN {} ELSE {"EvalSame"})
           \cup (IF ValueVerdict(e) = 2 THEN {"ValuePreserved"} ELSE {})
-          \cup (IF e.kind = "norm" /\ e.cv \in CanonCvs(e.mode, e.ty) /\ TheoryFull(e) /\ IsEquation(e.pt.th) /\ e.idem.o # "conv" /\ ~IdemSame(e) THEN {"Idempotent"} ELSE {})
+          \cup (IF e.kind = "norm" /\ e.cv \in CanonCvs(e.mode, e.ty) /\ TheoryFull(e) /\ Claimed(e.mode, e.ty, e.x) /\ IsEquation(e.pt.th) /\ e.idem.o # "conv" /\ ~IdemSame(e) THEN {"Idempotent"} ELSE {})
         ELSE {})
 ConvDiverges(e) ==
   \/ (e.pt.o = "conv" /\ e.ev.o = "ok")
   \/ (e.pt.o = "ok" /\ ValueVerdict(e) = 0)
-  \/ (e.pt.o = "ok" /\ e.kind = "norm" /\ IsEquation(e.pt.th) /\ ~IdemSame(e) /\ (e.cv \notin CanonCvs(e.mode, e.ty) \/ ~TheoryFull(e) \/ e.idem.o = "conv"))
+  \/ (e.pt.o = "ok" /\ e.kind = "norm" /\ IsEquation(e.pt.th) /\ ~IdemSame(e) /\ (e.cv \notin CanonCvs(e.mode, e.ty) \/ ~TheoryFull(e) \/ ~Claimed(e.mode, e.ty, e.x) \/ e.idem.o = "conv"))
   \/ (e.pt.o = "ok" /\ e.cv = "nnf" /\ IsEquation(e.pt.th) /\ ~IsNNF(FromHolP(RhsOf(e.pt.th))))
 ConvNontrivial(e) == e.pt.o = "ok" /\ IsEquation(e.pt.th) /\ (e.kind = "comb" \/ ValueVerdict(e) >= 0)
 
@@ -77,14 +88,19 @@ OrbitOK(e) == \A i \in 1..Len(e.ms) : ClassExaminable(e.mode, e.ty, e.ms[i].x)
 Uncanonical(e) ==
   LET n == Len(e.ms) cl == [i \in 1..n |-> Class(e.mode, e.ty, e.ms[i].x)] IN
   \E i \in 1..n : \E j \in (i + 1)..n : cl[i] = cl[j] /\ e.ms[i].rhs # e.ms[j].rhs
+\* the same among the members for which canonicity is demanded
+UncanonicalClaimed(e) ==
+  LET n == Len(e.ms) cl == [i \in 1..n |-> Class(e.mode, e.ty, e.ms[i].x)] ok == [i \in 1..n |-> Claimed(e.mode, e.ty, e.ms[i].x)] IN
+  \E i \in 1..n : \E j \in (i + 1)..n : ok[i] /\ ok[j] /\ cl[i] = cl[j] /\ e.ms[i].rhs # e.ms[j].rhs
 \* at least two members of one class were compared
 OrbitCompared(e) ==
   LET n == Len(e.ms) cl == [i \in 1..n |-> Class(e.mode, e.ty, e.ms[i].x)] IN \E i \in 1..n : \E j \in (i + 1)..n : cl[i] = cl[j]
 ClausesOf(e) == IF e.kind = "orbit"
-                THEN (IF e.cv \in CanonCvs(e.mode, e.ty) /\ TheoryFull(e) /\ OrbitOK(e) /\ Uncanonical(e) THEN {"Canonical"} ELSE {})
+                THEN (IF e.cv \in CanonCvs(e.mode, e.ty) /\ TheoryFull(e) /\ OrbitOK(e) /\ UncanonicalClaimed(e) THEN {"Canonical"} ELSE {})
                 ELSE ConvClauses(e)
 NontrivialOf(e) == IF e.kind = "orbit" THEN OrbitOK(e) /\ OrbitCompared(e) ELSE ConvNontrivial(e)
-DivergesOf(e) == IF e.kind = "orbit" THEN (e.cv \notin CanonCvs(e.mode, e.ty) \/ ~TheoryFull(e)) /\ OrbitOK(e) /\ Uncanonical(e) ELSE ConvDiverges(e)
+DivergesOf(e) == IF e.kind = "orbit" THEN OrbitOK(e) /\ Uncanonical(e) /\ ~(e.cv \in CanonCvs(e.mode, e.ty) /\ TheoryFull(e) /\ UncanonicalClaimed(e))
+                 ELSE ConvDiverges(e)
 TNext == LET e == Trace[l] IN TStep(e.tid, ClausesOf(e), NontrivialOf(e), DivergesOf(e))
 TSpec == TInit /\ [][TNext]_l
 =============================================================================
